@@ -270,6 +270,15 @@ def marshal_rules(ctx, c, mfi, paths, selft, skip_typing=False):
         e, a = tv(er), tv(au)
         if e is not None and a is not None and is_const(sl[2]):
             flag_rows[(e, a)] = sl[2][1]
+        elif not is_const(sl[2]):
+            # computed without branching (a table indexed by the two
+            # booleans, arithmetic on them): evaluate the expression for
+            # every combination this path allows
+            for e2 in ((True, False) if e is None else (e,)):
+                for a2 in ((True, False) if a is None else (a,)):
+                    v2 = subst_fold(sl[2], {er: C(e2), au: C(a2)})
+                    if is_const(v2) and isinstance(v2[1], int):
+                        flag_rows[(e2, a2)] = int(v2[1])
         mt = class_const(prog, c, '_messageType')
         ctx.ob('C03.D3', q, 'slot-type:%s' % cname, sl[1] == mt,
                'slot 1 must carry the message type', nontrivial=False)
